@@ -50,6 +50,7 @@ def run(prog, R, tier="quick", only_rule=None):
     from rules.props import c06
     c06.c06j(prog, R, rid="C01.n")
     c06.c06l(prog, R, rid="C01.o")
+    c06.c06p(prog, R, rid="C01.s")
     from rules.props import c02 as _c02
     _c02.c02f(prog, R, rid="C01.p")
     _c02.c02a(prog, R, rid="C01.q")
